@@ -31,6 +31,13 @@ DOMAIN_CORE = [
     b"[IPv6:1::1.2.3.4]", b"[IPv6:1:2]", b"[IPv6:1.2.3.4]", b"[ipv6:::1]", b"[IPv6:ge80::1]", b"[1:2:3:4:5:6:7:8]", b"[::1]",
     b"[2001:db8::1]", b"[foo:1.2.3.4]", b"[IPv6:1:2:3:4:5:6:7:8]:9", b"[IPv6:::ffff:0.1.2.3]", b"[IPv6:]", b"[IPv6::::]",
     b"[1.2.3.4][5.6.7.8]", b"[[1.2.3.4]]", b"[1.2.3.4]]", b"[1111111]", b"[aaaaaaaa]:b:c",
+    # code points that IDNA maps to nothing / ignorable: the converted name can be empty or lose a label
+    "\u00ad".encode(), "\u00ad.com".encode(), "a\u00adb.com".encode(), "\u200b".encode(), "\ufe0f.com".encode(), "a.\u00ad".encode(),
+    "\u00ad\u00ad.\u00ad".encode(), "\u2060.ru".encode(), "\u034f".encode(), "a.\u200b.com".encode(),
+    # very long domains (beyond DNS limits, beyond 1 KiB / 4 KiB internal buffers)
+    b"a" * 300 + b".com", b"a" * 1100 + b".com", (b"ab." * 400) + b"com", (b"ab." * 1500) + b"com", ("ж" * 600 + ".рф").encode(),
+    ("жы." * 400 + "рф").encode(), b"a." * 130 + b"com", b"[" + b"1." * 600 + b"1]", b"[IPv6:" + b"1:" * 600 + b"1]", b"-" * 1030,
+    ("é" * 30 + ".").encode() * 20 + b"com",
 ]
 
 
